@@ -152,6 +152,8 @@ inductive LOp where
   | rescale (d k a : Nat)
   | rescaleAssign (d k : Nat)
   | align (a b : Nat)
+  | addPt (sub : Bool) (d a : Nat) (pt : Pt) (pg : Col)
+  | addPtAssign (sub : Bool) (d : Nat) (pt : Pt) (pg : Col)
 deriving Repr, DecidableEq
 
 /-- the API call as the metadata model sees it (`add` and `sub` have one metadata behaviour) -/
@@ -167,6 +169,8 @@ def LOp.toOp : LOp → Op
   | .rescale d k a => .rescale d k a
   | .rescaleAssign d k => .rescaleAssign d k
   | .align a b => .align a b
+  | .addPt _ d a pt _ => .addPtZnx d a pt
+  | .addPtAssign _ d pt _ => .addPtZnxAssign d pt
 
 abbrev DPool := List DCt
 
@@ -210,6 +214,8 @@ def dstep (env : Env) (N : Nat) (pool : DPool) : LOp → Outcome DPool
         dput pool b (dRescaleAssign env N cb (cb.md.logBudget - ca.md.logBudget))
       else dput pool a (dRescaleAssign env N ca (ca.md.logBudget - cb.md.logBudget))
     | _, _ => .err Err.badSlot.toString
+  | .addPt sub d a pt pg => dop2 pool d a (fun cd ca => dAddPtInto env N sub cd ca pt pg)
+  | .addPtAssign sub d pt pg => dop1 pool d (fun cd => dAddPtAssign env N sub cd pt pg)
 
 /-- the pool a call leaves behind when it returns `Err`: `ckks_add_into` / `ckks_sub_into` run their data path
 before the budget check, so the destination holds the un-normalised aligned sum under its old metadata; every
@@ -224,6 +230,16 @@ def dstepErrPool (env : Env) (N : Nat) (pool : DPool) : LOp → DPool
         | .ok g1 => pool.set d ⟨g1, cd.md⟩
         | _ => pool
     | _, _, _ => pool
+  | .addPt _ d a pt _ =>
+    -- the alignment check of the plaintext comes after the aligned copy of `a`
+    match pool[d]?, pool[a]? with
+    | some cd, some ca =>
+      if d = a then pool
+      else
+        match withPt env pt cd.ct (shiftInto env cd.ct ca.ct 0), glweLsh N cd.g ca.g (unaryShift env cd.ct ca.ct 0) with
+        | .ok m1, .ok g1 => pool.set d ⟨g1, m1.md⟩
+        | _, _ => pool
+    | _, _ => pool
   | _ => pool
 
 /-- a straight-line program, stopping at the first call that is not `Ok` -/
